@@ -76,6 +76,7 @@ type AtSpec struct {
 //	QueueRec{cmd}                                 Queue.Reconcile for that command ("" = every command in the queue)
 //	Cleanup                                       Controller.Reconcile of a controller without methods = stale cleanup only
 //	ReplLaunch/ReplInit/ReplVanish{cmd, i, via, lag}   environment acts on the i-th replacement of cmd
+//	CandVanish{node, value: both|node|claim}      a candidate's Node and/or NodeClaim disappears from the API (and, unless lag, from the cluster state)
 //	Quiescent                                     run queue + cleanup to a fix-point at the current instant, then snapshot
 //
 // with `faults` (as in the disruption driver), `cut` and `at`.
@@ -729,6 +730,29 @@ func (o *osim) ostep(st OStep) error {
 		o.runCleanup(st)
 	case "ReplLaunch", "ReplInit", "ReplVanish":
 		o.replStep(st)
+	case "CandVanish":
+		n, err := o.node(st.Node)
+		if err != nil {
+			return err
+		}
+		if st.Value != "node" {
+			if o.w.EnvRemove(&v1.NodeClaim{ObjectMeta: metav1.ObjectMeta{Name: claimName(n)}}, "CandVanish") {
+				if st.Lag {
+					o.lagged = append(o.lagged, [2]string{"NodeClaim", claimName(n)})
+				} else {
+					o.deliver("NodeClaim", claimName(n), "")
+				}
+			}
+		}
+		if st.Value != "claim" {
+			if o.w.EnvRemove(&corev1.Node{ObjectMeta: metav1.ObjectMeta{Name: n.Name}}, "CandVanish") {
+				if st.Lag {
+					o.lagged = append(o.lagged, [2]string{"Node", n.Name})
+				} else {
+					o.deliver("Node", n.Name, "")
+				}
+			}
+		}
 	case "Quiescent":
 		o.quiescent(st)
 		o.snapshotQ()
@@ -778,15 +802,30 @@ func (o *osim) snapshotQ() {
 			marked[n.NodeClaim.Name] = n.MarkedForDeletion()
 		}
 	}
+	// "counts as schedulable capacity": the existing nodes a real scheduling simulation (SimulateScheduling without
+	// candidates = what the provisioner and every disruption method build) works with
+	capacity, simOK := map[string]bool{}, false
+	func() {
+		defer func() { _ = recover() }()
+		res, err := kdisruption.SimulateScheduling(o.dctx(), o.w.Client, o.cluster, o.prov, o.w.Clock, o.w.Rec, nil)
+		if err != nil {
+			return
+		}
+		simOK = true
+		for _, en := range res.ExistingNodes {
+			capacity[en.Name()] = true
+		}
+	}()
 	recs := []trace.M{}
 	for i := range claims.Items {
 		c := &claims.Items[i]
 		r := trace.M{"claim": c.Name, "node": "-", "pid": dash(c.Status.ProviderID), "deleting": !c.DeletionTimestamp.IsZero(),
 			"reason": hasCond(c, v1.ConditionTypeDisruptionReason, ""), "tainted": false, "nodeDeleting": false,
 			"marked": marked[c.Name], "inQueue": c.Status.ProviderID != "" && o.queue.HasAny(c.Status.ProviderID),
-			"initialized": hasCond(c, v1.ConditionTypeInitialized, "True")}
+			"initialized": hasCond(c, v1.ConditionTypeInitialized, "True"), "capacity": true}
 		if n, ok := nodeByPid[c.Status.ProviderID]; ok && c.Status.ProviderID != "" {
 			r["node"] = n.Name
+			r["capacity"] = !simOK || capacity[n.Name]
 			r["nodeDeleting"] = !n.DeletionTimestamp.IsZero()
 			for _, t := range n.Spec.Taints {
 				if t.MatchTaint(&v1.DisruptedNoScheduleTaint) {
@@ -801,7 +840,7 @@ func (o *osim) snapshotQ() {
 		ids = append(ids, o.idOf(c))
 	}
 	sort.Strings(ids)
-	o.w.Emit(trace.M{"e": "Quiescent", "nodes": recs, "queue": ids, "synced": o.cluster.Synced(o.ctx)})
+	o.w.Emit(trace.M{"e": "Quiescent", "nodes": recs, "queue": ids, "synced": o.cluster.Synced(o.ctx), "simulated": simOK})
 }
 
 // RunOrchOne executes one orchestration scenario in a fresh world.
